@@ -163,6 +163,9 @@ type c12Case struct {
 	ExtraMsgs []*ir.Message `json:"extra_msgs"`
 	Prepend   bool          `json:"prepend"`
 	Files     []extraFile   `json:"files"`
+	// Sparse: the generated file's SourceCodeInfo only has locations for commented elements (descriptor sets
+	// written by tools other than protoc omit the rest), while the extra files keep all of theirs
+	Sparse bool `json:"sparse"`
 }
 
 func referenced(f *ir.File, roots []string) map[string]bool {
@@ -273,6 +276,7 @@ func init() {
 				x.Before = x.Imported || rapid.Bool().Draw(t, "before")
 				c.Files = append(c.Files, x)
 			}
+			c.Sparse = rapid.IntRange(0, 2).Draw(t, "sparse") == 0
 			setExtra(rp, "c12", c)
 			return rp
 		},
@@ -291,6 +295,15 @@ func init() {
 				cfg := ir.Clone(v.Cfg)
 				cfg.Types = types
 				fd := desc.BuildFile(f)
+				if c.Sparse {
+					var keep []*descpb.SourceCodeInfo_Location
+					for _, l := range fd.SourceCodeInfo.Location {
+						if l.LeadingComments != nil || l.TrailingComments != nil || len(l.LeadingDetachedComments) > 0 {
+							keep = append(keep, l)
+						}
+					}
+					fd.SourceCodeInfo.Location = keep
+				}
 				var before, after []*descpb.FileDescriptorProto
 				for _, x := range files {
 					xd := desc.BuildFile(x.File)
@@ -360,6 +373,9 @@ func init() {
 				}
 			}
 			r.Class(fmt.Sprintf("extra_files:%d", len(c.Files)))
+			if c.Sparse {
+				r.Class("sparse_source_info")
+			}
 			if len(c.ExtraMsgs) > 0 {
 				r.Class("extra_messages")
 			}
